@@ -46,7 +46,7 @@ OkC05(e) ==
        /\ ~Terminal(e, i) => S(x.out) = S("nonterminal")
        \* a jet that JetLib specifies computed its specified function (the others enter as oracle answers)
        /\ (IsJetLeaf(e, i) /\ JL!JetKnown(e.dag[i][6])) =>
-            S(x.out) = S(IF JL!JetOut(e.dag[i][6], x.in) = JL!JetFails THEN "jetfailed" ELSE JL!JetOut(e.dag[i][6], x.in))
+            S(x.out) = (IF S(JL!JetOut(e.dag[i][6], x.in)) = S(JL!JetFails) THEN S("jetfailed") ELSE S(JL!JetOut(e.dag[i][6], x.in)))
   /\ e.same_with_dirty_memory                                        \* independent of memory contents
 OkC07(e) ==
   LET ty == Ty(e) IN
